@@ -81,6 +81,11 @@ fn check_list(l: &mut Law, reference: &[String], p: &Pointer) {
             })
             .collect();
         l.ck(rest.len() == n && rest.iter().zip(reference).all(|(a, b)| a.as_ref() == Some(b)), "components_tokens");
+        // a component made from a token is that token
+        l.ck(
+            p.tokens().zip(p.components().skip(1)).all(|(t, c)| Component::from(t.clone()) == c),
+            "component_from_token",
+        );
     }
 }
 
